@@ -1,4 +1,5 @@
 import AFV.Model.Verdict
+import AFV.Lemmas.HeavParts
 import Mathlib.Algebra.Order.Field.Rat
 import Mathlib.Tactic.Linarith
 /-!
@@ -215,18 +216,25 @@ structure OracleSound (o : Oracle) (box : Box) : Prop where
   /-- `doit()` does not change the value -/
   doit_eq : ∀ f g, o.doit f = some g → ∀ ρ, InBox box ρ → eval ρ g = eval ρ f
 
+/-- where the Heaviside partition still needs a side condition: always for the old joint partition; for the
+repaired per-atom partition only at points where some Heaviside argument is exactly 0 (`H(0) = 1/2`) -/
+def NeedsBracket (cfg : Cfg) (ρ : Nat → Rat) (f1 : E) : Prop :=
+  cfg.heavPerAtom = false ∨ ∃ x ∈ heavArgs [] f1, eval ρ x = 0
+
 /-- The class `C lt` of formulas on which the repo's own two rewrites are harmless for direction
 `lt`, closed under the sub-problems the recursion visits. -/
-structure Admissible (o : Oracle) (box : Box) (C : Bool → E → Prop) : Prop where
+structure Admissible (cfg : Cfg) (o : Oracle) (box : Box) (C : Bool → E → Prop) : Prop where
   /-- `doit()` stays in the class -/
   doit_ok : ∀ lt f g, C lt f → o.doit f = some g → C lt g
   /-- stripping `ceiling` moves the value to the safe side -/
   strip_ok : ∀ lt f, C lt f → ∀ ρ, InBox box ρ → Below lt (eval ρ (strip f)) (eval ρ f)
-  /-- the all-ones / all-zeros Heaviside partition brackets the value, and both parts stay in the class -/
-  heav_ok : ∀ lt f f1 a b, C lt f → o.norm (strip f) = some f1 → hasHeav f1 = true →
-    o.norm (setHeav 1 f1) = some a → o.norm (setHeav 0 f1) = some b →
-    C lt a ∧ C lt b ∧
-      ∀ ρ, InBox box ρ → Below lt (eval ρ a) (eval ρ f1) ∨ Below lt (eval ρ b) (eval ρ f1)
+  /-- the parts of the Heaviside partition stay in the class … -/
+  heav_closed : ∀ lt f f1, C lt f → o.norm (strip f) = some f1 → hasHeav f1 = true →
+    ∀ p ∈ partsOf cfg f1, ∀ a, o.norm p = some a → C lt a
+  /-- … and bracket the value wherever that is not automatic (`NeedsBracket`) -/
+  heav_ok : ∀ lt f f1, C lt f → o.norm (strip f) = some f1 → hasHeav f1 = true →
+    ∀ ρ, InBox box ρ → NeedsBracket cfg ρ f1 →
+      ∃ p ∈ partsOf cfg f1, ∀ a, o.norm p = some a → Below lt (eval ρ a) (eval ρ f1)
   min_ok : ∀ lt f xs, C lt f → o.norm (strip f) = some (.min xs) → ∀ x ∈ xs, C lt x
   max_ok : ∀ lt f xs, C lt f → o.norm (strip f) = some (.max xs) → ∀ x ∈ xs, C lt x
   range_i_ok : ∀ lt f f1 s lo hi, C lt f → o.norm (strip f) = some f1 →
@@ -260,9 +268,98 @@ theorem sgn_max_of_all {ρ : Nat → Rat} {xs : List E} (h : ∀ x ∈ xs, Sgn f
   · show _ ≤ (0 : Rat); rw [h0]
   · have := h x hx; rw [hxe] at this; exact this
 
+theorem normAll_spec {o : Oracle} : ∀ {ps as : List E}, normAll o ps = .ok as →
+    ∀ p ∈ ps, ∃ a ∈ as, o.norm p = some a
+  | [], _, _, p, hp => by cases hp
+  | q :: qs, as, h, p, hp => by
+    rw [normAll] at h
+    split at h
+    · cases h
+    · rename_i a ha
+      split at h
+      · cases h
+      · rename_i as' has
+        cases h
+        rcases List.mem_cons.mp hp with rfl | hp'
+        · exact ⟨a, by simp, askNorm_ok ha⟩
+        · obtain ⟨b, hb, hn⟩ := normAll_spec has p hp'
+          exact ⟨b, List.mem_cons_of_mem _ hb, hn⟩
+
+theorem normAll_spec' {o : Oracle} : ∀ {ps as : List E}, normAll o ps = .ok as →
+    ∀ a ∈ as, ∃ p ∈ ps, o.norm p = some a
+  | [], as, h, a, ha => by rw [normAll] at h; cases h; cases ha
+  | q :: qs, as, h, a, ha => by
+    rw [normAll] at h
+    split at h
+    · cases h
+    · rename_i a' ha'
+      split at h
+      · cases h
+      · rename_i as' has
+        cases h
+        rcases List.mem_cons.mp ha with rfl | ha2
+        · exact ⟨q, by simp, askNorm_ok ha'⟩
+        · obtain ⟨p, hp, hn⟩ := normAll_spec' has a ha2
+          exact ⟨p, List.mem_cons_of_mem _ hp, hn⟩
+
+/-- the Min/Max rules and the range recursion -/
+theorem rest_sound {cfg : Cfg} {o : Oracle} {box : Box} {C : Bool → E → Prop}
+    (hO : OracleSound o box) (hA : Admissible cfg o box C)
+    {rec : E → M Bool} {lt : Bool}
+    (hrec : ∀ g, C lt g → rec g = .ok false → Claim box lt g)
+    {f f1 : E} (hf : C lt f) (hn : o.norm (strip f) = some f1)
+    (h : rest o box rec f1 lt = .ok false) : Claim box lt f1 := by
+  intro ρ hρ
+  unfold rest at h
+  split at h
+  · -- Min
+    have hC := hA.min_ok lt f _ hf hn
+    cases lt
+    · simp only [Bool.false_eq_true, if_false] at h
+      obtain ⟨x, hx, hg⟩ := allE_false h
+      exact sgn_min_of_ex ⟨x, hx, hrec x (hC x hx) hg ρ hρ⟩
+    · simp only [if_true] at h
+      have hall := anyE_false h
+      exact sgn_min_of_all fun x hx => hrec x (hC x hx) (hall x hx) ρ hρ
+  · -- Max
+    have hC := hA.max_ok lt f _ hf hn
+    cases lt
+    · simp only [Bool.false_eq_true, if_false] at h
+      have hall := anyE_false h
+      exact sgn_max_of_all fun x hx => hrec x (hC x hx) (hall x hx) ρ hρ
+    · simp only [if_true] at h
+      obtain ⟨x, hx, hg⟩ := allE_false h
+      exact sgn_max_of_ex ⟨x, hx, hrec x (hC x hx) hg ρ hρ⟩
+  · split at h
+    · cases h
+    · rename_i s _
+      split at h
+      · cases h
+      · split at h
+        · cases h
+        · cases h
+        · rename_i l hra
+          have hra := askRange_ok hra
+          have hC := hA.range_f_ok lt f f1 s l hf hn hra
+          have hall := anyE_false h
+          obtain ⟨g, hg, hge⟩ := hO.range_finite f1 s l hra ρ hρ
+          have := hrec g (hC g hg) (hall g hg) ρ hρ
+          rw [hge] at this
+          exact this
+        · rename_i lo hi hra
+          have hra := askRange_ok hra
+          have hC := hA.range_i_ok lt f f1 s lo hi hf hn hra
+          have hb := hO.range_interval f1 s lo hi hra ρ hρ
+          have := hrec _ hC h ρ hρ
+          cases lt
+          · simp only [Bool.false_eq_true, if_false] at this
+            exact le_trans hb.2 this
+          · simp only [if_true] at this
+            exact le_trans this hb.1
+
 /-- One activation of `_compare_to_zero` is sound if its recursive calls are. -/
 theorem step_sound {cfg : Cfg} {o : Oracle} {box : Box} {C : Bool → E → Prop}
-    (hO : OracleSound o box) (hA : Admissible o box C)
+    (hO : OracleSound o box) (hA : Admissible cfg o box C)
     {rec : E → M Bool} {lt : Bool}
     (hrec : ∀ g, C lt g → rec g = .ok false → Claim box lt g)
     {f : E} (hf : C lt f) (h : step cfg o box rec f lt = .ok false) : Claim box lt f := by
@@ -291,78 +388,47 @@ theorem step_sound {cfg : Cfg} {o : Oracle} {box : Box} {C : Bool → E → Prop
       · cases h
       · split at h
         · cases h
-        · rename_i a ha
-          split at h
-          · cases h
-          · rename_i b hb
-            have ha := askNorm_ok ha
-            have hb := askNorm_ok hb
-            obtain ⟨hCa, hCb, hbr⟩ := hA.heav_ok lt f f1 a b hf hn hh ha hb
-            have hall := anyE_false h
-            have hca := hrec a hCa (hall a (by simp)) ρ hρ
-            have hcb := hrec b hCb (hall b (by simp)) ρ hρ
-            rcases hbr ρ hρ with hx | hx
-            · exact sgn_of_below hx hca
-            · exact sgn_of_below hx hcb
+        · rename_i parts hparts
+          have hall := anyE_false h
+          have hclosed := hA.heav_closed lt f f1 hf hn hh
+          -- a part on the safe side of f1 whose normal form was examined
+          have key : ∃ p ∈ partsOf cfg f1, ∀ a, o.norm p = some a → Below lt (eval ρ a) (eval ρ f1) := by
+            by_cases hnb : NeedsBracket cfg ρ f1
+            · exact hA.heav_ok lt f f1 hf hn hh ρ hρ hnb
+            · have hper : cfg.heavPerAtom = true := by
+                cases hc : cfg.heavPerAtom
+                · exact absurd (Or.inl hc) hnb
+                · rfl
+              have hno : ∀ x ∈ heavArgs [] f1, eval ρ x ≠ 0 := fun x hx h0 => hnb (Or.inr ⟨x, hx, h0⟩)
+              obtain ⟨p, hp, hpe⟩ := heavParts_exact ρ f1 hno
+              refine ⟨p, by simp [partsOf, hper, hp], fun a ha => ?_⟩
+              have := hO.norm_eq p a ha ρ hρ
+              rw [this, hpe]
+              exact below_refl _ _
+          obtain ⟨p, hp, hbel⟩ := key
+          obtain ⟨a, ha, hna⟩ := normAll_spec hparts p hp
+          have hca := hrec a (hclosed p hp a hna) (hall a ha) ρ hρ
+          exact sgn_of_below (hbel a hna) hca
     · split at h
       · cases h
       · rename_i ans hr
         have hr := askRel_ok hr
-        have : ans = true := by
-          cases ans
-          · simp at h
-          · rfl
-        subst this
-        exact hO.rel_sound f1 lt hr ρ hρ
-      · split at h
-        · -- Min
-          have hC := hA.min_ok lt f _ hf hn
-          cases lt
-          · simp only [Bool.false_eq_true, if_false] at h
-            obtain ⟨x, hx, hg⟩ := allE_false h
-            exact sgn_min_of_ex ⟨x, hx, hrec x (hC x hx) hg ρ hρ⟩
-          · simp only [if_true] at h
-            have hall := anyE_false h
-            exact sgn_min_of_all fun x hx => hrec x (hC x hx) (hall x hx) ρ hρ
-        · -- Max
-          have hC := hA.max_ok lt f _ hf hn
-          cases lt
-          · simp only [Bool.false_eq_true, if_false] at h
-            have hall := anyE_false h
-            exact sgn_max_of_all fun x hx => hrec x (hC x hx) (hall x hx) ρ hρ
-          · simp only [if_true] at h
-            obtain ⟨x, hx, hg⟩ := allE_false h
-            exact sgn_max_of_ex ⟨x, hx, hrec x (hC x hx) hg ρ hρ⟩
-        · split at h
-          · cases h
-          · rename_i s _
-            split at h
+        split at h
+        · cases h
+        · rename_i hans
+          have hat : ans = true := by cases ans <;> simp_all
+          subst hat
+          split at h
+          · exact hO.rel_sound f1 lt hr ρ hρ
+          · split at h
             · cases h
-            · split at h
-              · cases h
-              · cases h
-              · rename_i l hra
-                have hra := askRange_ok hra
-                have hC := hA.range_f_ok lt f f1 s l hf hn hra
-                have hall := anyE_false h
-                obtain ⟨g, hg, hge⟩ := hO.range_finite f1 s l hra ρ hρ
-                have := hrec g (hC g hg) (hall g hg) ρ hρ
-                rw [hge] at this
-                exact this
-              · rename_i lo hi hra
-                have hra := askRange_ok hra
-                have hC := hA.range_i_ok lt f f1 s lo hi hf hn hra
-                have hb := hO.range_interval f1 s lo hi hra ρ hρ
-                have := hrec _ hC h ρ hρ
-                cases lt
-                · simp only [Bool.false_eq_true, if_false] at this
-                  exact le_trans hb.2 this
-                · simp only [if_true] at this
-                  exact le_trans this hb.1
+            · exact hO.rel_sound f1 lt hr ρ hρ
+            · exact rest_sound hO hA hrec hf hn h ρ hρ
+      · exact rest_sound hO hA hrec hf hn h ρ hρ
 
 /-- `_compare_to_zero` returning `False` is a proof: by induction on the recursion depth. -/
 theorem compare_sound {cfg : Cfg} {o : Oracle} {box : Box} {C : Bool → E → Prop}
-    (hO : OracleSound o box) (hA : Admissible o box C) :
+    (hO : OracleSound o box) (hA : Admissible cfg o box C) :
     ∀ (fuel : Nat) (f : E) (lt : Bool), C lt f → compare cfg o box fuel f lt = .ok false → Claim box lt f
   | 0, _, _, _, h => by simp [compare] at h
   | fuel + 1, f, lt, hf, h => by
